@@ -1,2 +1,4 @@
 import Properties
-#print axioms SP.C17.placeholder
+/-! The audited list is generated on every run by `harness/core.py:audit()` from the `theorem`
+    declarations found under `Properties/` (written to `.lake/AuditGen.lean`).  This file only
+    checks that the property library loads. -/
